@@ -505,7 +505,9 @@ def k_generate(run, case):
         elif c["kind"] == "choice":
             tokens.append(str(c["choices"][rng.integers(len(c["choices"]))]))
         elif c["kind"] == "str":
-            tokens.append(["out_file.zip", "some/path.pdf", "name with space", "results"][rng.integers(4)])
+            # (file / topic names; among them names that spell a literal of another type)
+            tokens.append(["out_file.zip", "some/path.pdf", "name with space", "results", "false", "true", "True", "FALSE",
+                           "None", "null"][rng.integers(10)])
     if rng.random() < .2:
         # the same valued option named twice (defaults from an alias first, the override last):
         # the last one counts, as with argparse
